@@ -14,6 +14,7 @@ Fixpoint visit_expr_old (e : expr) (t : tstate) {struct e} : tstate :=
   | EConst _ => t
   | EVar x => t_lookup x t
   | EList items => (fix go l t := match l with [] => t | x :: r => go r (visit_expr_old x t) end) items t
+  | EMap pairs => (fix go (l : list (expr * expr)) t := match l with [] => t | (k, v) :: r => go r (visit_expr_old v (visit_expr_old k t)) end) pairs t
   | ENeg a | ENot a => visit_expr_old a t
   | EBin _ a b | EAnd a b | EOr a b => visit_expr_old b (visit_expr_old a t)
   | ECmp a rest => (fix go (l : list (cmpop * expr)) t := match l with [] => t | (_, x) :: r => go r (visit_expr_old x t) end) rest (visit_expr_old a t)
@@ -61,10 +62,10 @@ Fixpoint walk_old (s : stmt) (t : tstate) {struct s} : tstate :=
       let t := match flt with Some f => visit_expr_old f t | None => t end in
       let t := t_pop (walk_list body t) in
       t_pop (match els with Some b => walk_list b (t_push t) | None => t_push t end)
-  | SSet x e => visit_expr_old e (t_assign x t)
+  | SSet tg e => visit_expr_old e (assign_target tg t)
   | SSetBlock x body _ => t_pop (walk_list body (t_push (t_assign x t)))
   | SWith binds body =>
-      let t := fold_left (fun t b => visit_expr_old (snd b) (t_assign (fst b) t)) binds (t_push t) in
+      let t := fold_left (fun t b => visit_expr_old (snd b) (assign_target (fst b) t)) binds (t_push t) in
       t_pop (walk_list body t)
   | SMacro nm params defaults body => t_pop (visit_macro true params defaults body (t_push (t_assign nm t)))
   | SCallBlock mn args body =>
